@@ -191,7 +191,8 @@ def gen_workspace(rnd: random.Random, root="/vw", max_depth=3, chain_only=False)
         for n in names:
             r = rnd.random()
             if r < 0.25:
-                src += fixture_src(rnd, n, params=[n] if rnd.random() < 0.5 else []) + "\n"
+                # an override in the test module, often with a return annotation of its own (differs from the parent's)
+                src += fixture_src(rnd, n, params=[n] if rnd.random() < 0.5 else [], ret=rnd.choice([None, None, "dict", "float"])) + "\n"
                 tags.append("testmodule:def")
                 if rnd.random() < 0.25:
                     src += fixture_src(rnd, n, params=[n] if rnd.random() < 0.5 else [], doc="again") + "\n"
@@ -218,6 +219,16 @@ def gen_workspace(rnd: random.Random, root="/vw", max_depth=3, chain_only=False)
                     src += fixture_src(rnd, rnd.choice(names), params=["self"], indent="    ") + "\n"
                 src += test_src(rnd, "test_m", ["self"] + rnd.sample(names, 1), indent="    ") + "\n"
         files[d + "/test_mod%d.py" % k] = src
+    # a request for a fixture that is defined ONCE in the whole workspace but is not visible from the requesting
+    # module (another test module's local fixture): the request resolves to nothing
+    locals_ = [(p, m) for p in files for m in __import__("re").findall(r"def (local_\d+)\(", files[p])]
+    if locals_ and rnd.random() < 0.35:
+        p0, nm = rnd.choice(locals_)
+        others = [p for p in files if "/test_mod" in p and p != p0]
+        if others:
+            q0 = rnd.choice(others)
+            files[q0] += "\ndef test_out_of_scope(%s):\n    pass\n" % nm
+            tags.append("usage:out-of-scope-single")
 
     # a diamond in the star-import graph, reached from two sibling conftest.py files: whatever
     # the first query leaves in the import memo, the second conftest must see the same names
@@ -267,7 +278,7 @@ def gen_chain_workspace(rnd: random.Random, root="/vc"):
         extra = ["tmp_other"] if rnd.random() < 0.2 else []
         return fixture_src(rnd, name, params=([name] if requests_parent else []) + extra, doc=doc,
                            multiline=ml, scope=rnd.choice([None, None, "session"]),
-                           ret=rnd.choice([None, "int"]))
+                           ret=rnd.choice([None, "int", "str", "dict"]))
 
     for pl in chosen:
         tags.append("link:" + ("conftest" if pl.startswith("conftest") else pl))
